@@ -30,6 +30,17 @@ Theorem C17_membership_any : forall h dom cid u y, Nat.eqb y cid = false -> fora
 Proof. exact concat_any_membership. Qed.
 Print Assumptions C17_membership_any.
 
+(* ... and the concatenation binds ONLY itself: a variable it ranges over (x) stays free - selected next to the outer variable it
+   takes every value of its domain for every qualifying outer value.  (The pinned code bound x to the list of all its values:
+   a second concatenation over x crashed, selecting x returned lists; repaired in /repo.) *)
+Theorem C17_parent_stays_free : forall h dom cid u y, Nat.eqb y cid = false -> forall x, Nat.eqb x cid = false -> Nat.eqb x y = false ->
+  forall o m,
+  run_query h dom [TVar y; TVar x] (Some (CCmp o (TConcat cid u) (TMap m (TVar y))))
+  = flat_map (fun w => map (fun v => [w; v]) (dom x))
+             (filter (fun w => apply_op o (concat_value h dom u) (apply_map h m w)) (dom y)).
+Proof. exact concat_any_leaves_parent_free. Qed.
+Print Assumptions C17_parent_stays_free.
+
 (* ... and for u = flatten(t) these are the elements of the elements of t, parent by parent (a collection of collections is
    concatenated one level deeper than concatenate(t) would) *)
 Theorem C17_concat_of_flatten : forall h dom x fid t, t1 x t = true -> mentions t = true ->
